@@ -306,6 +306,23 @@ func (t *Table) LeftOptionalJoin(t2 *Table) error {
 		return nil
 	}
 	if disjointBindings(t.mbs, t2.mbs) {
+		if len(t2.Data) == 0 {
+			// Nothing matched the optional part. A left join keeps every row
+			// of the left table and shows the new bindings as NULL.
+			t.mu.Lock()
+			defer t.mu.Unlock()
+			ubs := unionBindings(t.mbs, t2.mbs)
+			for i, r := range t.Data {
+				t.Data[i] = extendRow(r, ubs)
+			}
+			for _, b := range t2.AvailableBindings {
+				if !t.mbs[b] {
+					t.AvailableBindings = append(t.AvailableBindings, b)
+				}
+			}
+			t.mbs = ubs
+			return nil
+		}
 		// The tables has nothing in commnon. Hence, we are going to treat it
 		// as a regular cross product.
 		return t.DotProduct(t2)
